@@ -558,6 +558,8 @@ def run(pid, tier, seed, extra=None):
     if pid in ('C01', 'C02', 'C05', 'C06'):
         from checks import legacy_e2e
         legacy_e2e.run_e2e(ck, pid, tier, seed)
+    from checks import pconf_e2e
+    pconf_e2e.run(ck, pid, tier, seed)
     # the other download front-ends named in the property's anchors
     if pid == 'C06':
         from checks import c19, c20
@@ -582,6 +584,9 @@ def replay(path):
     if rp.get('kind') == 'legacy':
         from checks import legacy_e2e
         return legacy_e2e.replay(rp)
+    if rp.get('kind') == 'pconf':
+        from checks import pconf_e2e
+        return pconf_e2e.replay(rp)
     if rp.get('kind') == 'c19':
         from checks import c19
         return c19.replay(path)
